@@ -76,6 +76,17 @@ let run_op (op : string) (args : Sx.t list) : opres =
     let res = ax_op (getitem_model its) (getitem_spec its) l in
     let first o = (match o with OVal (VList [v]) -> OVal v | OVal _ -> OBad "getitem-shape" | o -> o) in
     { res with model = first res.model; spec = first res.spec }
+  | "field", [A k; l] ->
+    (* Content::getitem_field(key) called directly: same specification as the slice ((fld key)) *)
+    let its = [IField (name_of_string k)] in
+    let res = ax_op (getitem_model its) (getitem_spec its) l in
+    let first o = (match o with OVal (VList [v]) -> OVal v | OVal _ -> OBad "getitem-shape" | o -> o) in
+    { res with model = first res.model; spec = first res.spec }
+  | "fields", [L ks; l] ->
+    let its = [IFields (List.map (function A k -> name_of_string k | _ -> bad "fields") ks)] in
+    let res = ax_op (getitem_model its) (getitem_spec its) l in
+    let first o = (match o with OVal (VList [v]) -> OVal v | OVal _ -> OBad "getitem-shape" | o -> o) in
+    { res with model = first res.model; spec = first res.spec }
   | "setfield", [A k; l; w] ->
     let key = name_of_string k in
     let wc = content_of_sx w in
